@@ -37,6 +37,15 @@ def make_instances(ctx):
     d["factors"].append({"scope": ["v2", "v3"], "cells": mnutil._cells(rng, ["v2", "v3"], d["dom"])})
     d["disconnected"] = True
     out.append(d)
+    # a chordless 4-cycle plus a separate tree component (fewer edges than nodes overall)
+    d2 = mnutil.mn_instance(rng, len(out) + 1, "cycle4")
+    d2["vars"] += ["v4", "v5", "v6"]
+    d2["dom"].update({"v4": ["s0", "s1"], "v5": ["s0", "s1"], "v6": ["s0", "s1"]})
+    for a, b in (("v4", "v5"), ("v5", "v6")):
+        d2["edges"].append([a, b])
+        d2["factors"].append({"scope": [a, b], "cells": mnutil._cells(rng, [a, b], d2["dom"])})
+    d2["disconnected"] = True
+    out.append(d2)
     return out
 
 
